@@ -301,9 +301,143 @@ def extra_obligations(mods, tier, seed):
         out.append({"name": f"C18/exec/{r['name']}", "status": "discharged" if okv else ("unknown" if v.startswith("harness") else "sat"), "backend": "bounded-differential", "bounded": True,
                     "where": f"script '{r['name']}': display cells at every marker equal the host LCD's (an animation that was not started draws nothing) [{v}]", "time": 0.3,
                     "replay": {"script": r.get("script"), "first_difference": r.get("first_difference"), "detail": r.get("detail")}, "replay_confirmed": not okv and not v.startswith("harness")})
+    out += two_display_obligations(HostLCD, STY)
     out.append({"name": "C18/arms/one-tick-per-pass-before-user-code", "status": "discharged" if not bad else "sat", "backend": "enum",
                 "where": f"{n} (animated displays, buttons, body shape) combinations: LCDTick nodes head loop_body; loop() calls each tick helper once, first",
                 "time": round(time.time() - t0, 3), "replay": {"bad": bad[:3]}, "replay_confirmed": bool(bad)})
+    return out
+
+
+def _fw_frames(job):
+    """per display (construction order), the cells at every serial marker of the sketch on the firmware mock"""
+    name, src = job
+    import re as _re
+    from progs.diff import transpile
+    from fwsim.run import run_sketch
+    cpp, err = transpile(src)
+    if cpp is None:
+        return name, {"rejected": err}
+    r = run_sketch(cpp, passes=14)
+    if not r.get("compiled"):
+        return name, {"error": "does not compile: " + r.get("errors", "")[-300:]}
+    if r.get("timeout") or r.get("rc", 0) != 0:
+        return name, {"error": "crashed or timed out on the mock"}
+    rows, frames, oor, delays = {}, {}, [], 0
+    for e in r["events"]:
+        m = _re.match(r"L(\d*):(\d+):(.*)$", e)
+        if m:
+            rows.setdefault(int(m.group(1) or 0), {})[int(m.group(2))] = m.group(3)
+        elif e.startswith("S:"):
+            for k, rr in rows.items():
+                frames.setdefault(k, []).append((e[2:], dict(rr)))
+        elif e.startswith("LCD-OUT-OF-RANGE"):
+            oor.append(e)
+    return name, {"frames": frames, "out_of_range": oor[:3]}
+
+
+def two_display_obligations(HostLCD, STY):
+    import time
+    """several displays (BOUNDED, executed): what one display shows does not depend on the existence, construction time, animations or ticks of
+    another display - on the host model (real class) and on the firmware mock (same interface class, different widths, both declaration orders)"""
+    import multiprocessing as mp
+    out = []
+    t0 = time.time()
+    bad, n = [], 0
+    GEO = [((16, 2), (8, 1)), ((16, 2), (16, 2)), ((20, 4), (8, 2)), ((8, 2), (16, 2))]
+    for style in STY:
+        for (ca, ra), (cb, rb) in GEO:
+            for when in ("B-before-A", "B-constructed-after-A-animates", "B-animates-and-ticks-more-often"):
+                for loop_flag in (True, False):
+                    n += 1
+                    text = "0123456789ABCDEF"[:max(3, ca - 3)] if style != "scroll" else "0123456789ABCDEFGHIJ"
+
+                    def run(with_b):
+                        prob = None
+                        b = None
+                        if with_b and when == "B-before-A":
+                            b = HostLCD(i2c_addr=0x3F, cols=cb, rows=rb)
+                            b.line(0, "bbbb")
+                        a = HostLCD(i2c_addr=0x27, cols=ca, rows=ra)
+                        a.line(0, "static")
+                        a.animate(style, ra - 1, text, speed_ms=100, loop=loop_flag)
+                        if with_b and b is None:
+                            b = HostLCD(i2c_addr=0x3F, cols=cb, rows=rb)
+                            b.line(0, "bbbb")
+                        if with_b and when == "B-animates-and-ticks-more-often":
+                            b.animate(STY[(STY.index(style) + 1) % len(STY)], 0, "other text", speed_ms=30, loop=True)
+                        frames, bframes = [list(a.buffer)], []
+                        for k in range(1, 40):
+                            now = 1 + 50 * k
+                            if with_b:
+                                b.tick(now - 25)
+                                b.tick(now)
+                                bframes.append(list(b.buffer))
+                            a.tick(now)
+                            frames.append(list(a.buffer))
+                        return frames, bframes
+                    try:
+                        alone, _ = run(False)
+                        together, bfr = run(True)
+                        prob = None
+                        if alone != together:
+                            k = next(i for i, (x, y) in enumerate(zip(alone, together)) if x != y)
+                            prob = f"display A after {k} ticks shows {together[k]} next to display B, {alone[k]} alone"
+                        elif when != "B-animates-and-ticks-more-often" and any(fr[0].rstrip() != "bbbb" or any(r.strip() for r in fr[1:]) for fr in bfr):
+                            prob = "display B, which has no animation, changed while display A was ticked"
+                        elif loop_flag and len({tuple(f) for f in together[-20:]}) < 2:
+                            prob = "the looping animation of display A stopped advancing"
+                    except Exception as ex:
+                        prob = f"{type(ex).__name__}: {ex}"
+                    if prob:
+                        bad.append({"style": style, "A": [ca, ra], "B": [cb, rb], "when": when, "loop": loop_flag, "problem": prob})
+    out.append({"name": "C18/host/displays-do-not-interfere", "status": "discharged" if not bad else "sat", "backend": "bounded-native", "bounded": True,
+                "where": f"{n} host runs (4 styles x 4 geometry pairs x second display constructed before / after / animating and ticking more often x loop on/off): the frames of a display equal the "
+                         "frames it shows alone, tick() never raises, a display without animation is untouched, a looping animation keeps advancing", "time": round(time.time() - t0, 2),
+                "replay": {"bad": bad[:4]}, "replay_confirmed": bool(bad)})
+    # firmware
+    t1 = time.time()
+    imp = "from Reduino.Displays import LCD\nfrom Reduino.Communication import SerialMonitor\nfrom Reduino.Utils import sleep\nmon = SerialMonitor(9600)\n"
+    DECL = {"i2c": ("LCD(i2c_addr=0x27, cols={c}, rows=2)", "LCD(i2c_addr=0x3F, cols={c}, rows=2)"),
+            "parallel": ("LCD(rs=22, en=23, d4=24, d5=25, d6=26, d7=27, cols={c}, rows=2)", "LCD(rs=32, en=33, d4=34, d5=35, d6=36, d7=37, cols={c}, rows=2)")}
+    TEXT = "0123456789ABCDEFGHIJ"
+    jobs, plan = [], []
+    LOOP = "while True:\n    mon.write('m')\n    sleep(40)\n"
+    for iface, (d1, d2) in DECL.items():
+        for style in STY:
+            for (c1, c2) in ((16, 8), (8, 16)):
+                def single(decl, c, style_):
+                    return imp + "d = " + decl.format(c=c) + f"\nd.line(0, 'static')\nd.animate('{style_}', 1, '{TEXT[:c + 4 if style_ == 'scroll' else max(3, c - 2)]}', speed_ms=60, loop=True)\n" + LOOP
+                other = STY[(STY.index(style) + 1) % len(STY)]
+                two = (imp + "p = " + d1.format(c=c1) + "\nq = " + d2.format(c=c2) + "\np.line(0, 'static')\nq.line(0, 'static')\n"
+                       f"p.animate('{style}', 1, '{TEXT[:c1 + 4 if style == 'scroll' else max(3, c1 - 2)]}', speed_ms=60, loop=True)\n"
+                       f"q.animate('{other}', 1, '{TEXT[:c2 + 4 if other == 'scroll' else max(3, c2 - 2)]}', speed_ms=60, loop=True)\n" + LOOP)
+                key = f"{iface}/{style}+{other}/{c1}x{c2}"
+                jobs += [(key + "/two", two), (key + "/first-alone", single(d1, c1, style)), (key + "/second-alone", single(d2, c2, other))]
+                plan.append(key)
+    with mp.Pool(12) as pool:
+        res = dict(pool.map(_fw_frames, jobs, chunksize=1))
+    bad = []
+    for key in plan:
+        two, fa, sa = res[key + "/two"], res[key + "/first-alone"], res[key + "/second-alone"]
+        if any("rejected" in r for r in (two, fa, sa)):
+            continue
+        err = next((r["error"] for r in (two, fa, sa) if "error" in r), None)
+        if err:
+            bad.append({"case": key, "problem": err})
+            continue
+        if two["out_of_range"]:
+            bad.append({"case": key, "problem": f"writes outside the display: {two['out_of_range']}"})
+            continue
+        for disp, alone, label in ((0, fa, "first"), (1, sa, "second")):
+            got, want = two["frames"].get(disp, []), alone["frames"].get(0, [])
+            if got != want:
+                k = next((i for i, (x, y) in enumerate(zip(got, want)) if x != y), min(len(got), len(want)))
+                bad.append({"case": key, "problem": f"the {label} display at marker #{k}: {got[k][1] if k < len(got) else None} in the two-display sketch, {want[k][1] if k < len(want) else None} alone"})
+                break
+    out.append({"name": "C18/exec/two-displays-of-one-class-do-not-interfere", "status": "discharged" if not bad else "sat", "backend": "bounded-differential", "bounded": True,
+                "where": f"{len(plan)} two-display sketches (i2c / parallel x 4 styles x widths 16+8 and 8+16, one looping animation each): at every pass the cells of each display equal those of "
+                         "the same display in a single-display sketch; nothing is written outside a display", "time": round(time.time() - t1, 2),
+                "replay": {"bad": bad[:4]}, "replay_confirmed": bool(bad)})
     return out
 
 
